@@ -12,7 +12,7 @@ package types
 //@ func NewRID
 //@   nopanic[C05]
 //@   requires r != nil
-//@   modifies nothing
+//@   modifies hstate(r)
 //@   allocates
 //@   ensures result0 != nil && len(result0) == 32
 
